@@ -70,7 +70,7 @@ func runWatchScenario(root string, sc watchScenario) (watchLine, error) {
 	line := watchLine{Ev: "watcher", ID: sc.ID, Writes: []string{}}
 	files := map[string]bool{"hidi-config/user/keyboard/zz_barrier1.toml": true, "hidi-config/factory/gamepad/zz_barrier2.toml": true}
 	for _, op := range sc.Ops {
-		if op.Op == "write" {
+		if op.Op == "write" || op.Op == "trunc" {
 			files[op.File] = true
 		}
 	}
@@ -121,6 +121,24 @@ func runWatchScenario(root string, sc watchScenario) (watchLine, error) {
 			if err := appendOnce(filepath.Join(root, op.File)); err != nil {
 				return line, err
 			}
+			if !cancelled {
+				line.Writes = append(line.Writes, op.File)
+			}
+		case "trunc": // in-place modification that leaves the file empty: open with O_TRUNC (one IN_MODIFY)
+			fp := filepath.Join(root, op.File)
+			if st, err := os.Stat(fp); err == nil && st.Size() == 0 {
+				if err := appendOnce(fp); err != nil {
+					return line, err
+				}
+				if !cancelled {
+					line.Writes = append(line.Writes, op.File)
+				}
+			}
+			f, err := os.OpenFile(fp, os.O_WRONLY|os.O_TRUNC, 0)
+			if err != nil {
+				return line, err
+			}
+			f.Close()
 			if !cancelled {
 				line.Writes = append(line.Writes, op.File)
 			}
